@@ -3,6 +3,7 @@ package main
 import (
 	"fmt"
 	"go/token"
+	"go/types"
 	"sort"
 	"strings"
 
@@ -745,6 +746,7 @@ func runC15(c *Check) {
 	c.Doc("C15-R8", "EO: the initialisation marker of InitChain and the genesis records it vouches for are staged in one batch committed once, or the marker is written after them: never a marker on disk without the genesis root.")
 	c.MinInstances("C15-R8", 1)
 	ruleNoBatchUseAfterCommit(c, p, "C15-R9", kvPkg)
+	ruleExecuteTakesBlockAsGiven(c, p, "C15-R10", exec)
 	c.MinInstances("C15-R9", 2)
 	c.MinInstances("C15-R5", 1)
 	ruleFinalisationRepeatable(c, "C15-R6")
@@ -814,4 +816,114 @@ func soundRootCache(p *Prog, leaf *Term, root *ssa.Function, fns ...*ssa.Functio
 		}
 	}
 	return ""
+}
+
+// ruleExecuteTakesBlockAsGiven (C15-R10): the transactions of a block are executed as the block
+// lists them, and nothing but the block and the committed state decides the outcome. ExecuteTxs
+// therefore neither reorders nor rewrites the list it is handed (a sort of an alias sorts the
+// caller's slice), and reads nothing of the executor's mempool (the channel of injected
+// transactions): a proposer with a non-empty mempool would compute another root than a full node.
+func ruleExecuteTakesBlockAsGiven(c *Check, p *Prog, rule string, exec *ssa.Function) {
+	c.Doc(rule, "VP+CS: in reach of ExecuteTxs no sorting / shuffling / reversing call and no element store is applied to the transaction list parameter (or a slice of it), and no channel field of the executor is received from, sent to or measured: the outcome depends on the block as given and the committed state only.")
+	g := BuildECFG(p, exec, ownPkgOpts(kvPkg, 3))
+	c.NoteGraph(g)
+	var txsParam *ssa.Parameter
+	for _, prm := range exec.Params {
+		if prm.Type().String() == "[][]byte" {
+			txsParam = prm
+		}
+	}
+	if txsParam == nil {
+		c.Unk(rule, "ExecuteTxs ⟂ list as given", fnName(exec), "", "anchor lost: the transaction list parameter")
+		return
+	}
+	isList := func(t *Term) bool {
+		for d := 0; d < 6 && t != nil; d++ {
+			if t.V == ssa.Value(txsParam) {
+				return true
+			}
+			switch {
+			case (t.Op == "slice" || t.Op == "conv" || t.Op == "iface") && len(t.Args) > 0:
+				t = t.Args[0]
+			default:
+				return false
+			}
+		}
+		return false
+	}
+	bad := ""
+	for _, n := range g.Nodes {
+		if !g.Live()[n] || n.Kind != NInstr {
+			continue
+		}
+		switch x := n.In.(type) {
+		case ssa.CallInstruction:
+			cn := CallName(n)
+			reorders := strings.HasPrefix(cn, "sort.") && cn != "sort.Search" && !strings.HasPrefix(cn, "sort.Search") && !strings.HasSuffix(cn, "IsSorted") ||
+				strings.HasPrefix(cn, "slices.Sort") || cn == "slices.Reverse" || strings.HasSuffix(cn, "rand.Shuffle") || strings.HasSuffix(cn, "Rand).Shuffle")
+			if !reorders {
+				continue
+			}
+			for i := range x.Common().Args {
+				a := TermOf(x.Common().Args[i], n.Ctx)
+				if a != nil && (isList(a) || p.DeepContains(a, isList, 1)) {
+					bad = cn + " on the transaction list @" + p.InstrPos(n.In)
+				}
+			}
+		case *ssa.Store:
+			if ia, ok := x.Addr.(*ssa.IndexAddr); ok {
+				if t := TermOf(ia.X, n.Ctx); t != nil && isList(t) {
+					bad = "an element of the transaction list is overwritten @" + p.InstrPos(n.In)
+				}
+			}
+		}
+	}
+	if bad == "" {
+		c.OK(rule, "ExecuteTxs ⟂ list as given", fnName(exec), p.Pos(exec.Pos()), "the transaction list is neither reordered nor rewritten", true)
+	} else {
+		c.Bad(rule, "ExecuteTxs ⟂ list as given", fnName(exec), p.Pos(exec.Pos()), "ExecuteTxs changes the list it is handed ("+bad+"): the transactions are applied in another order than the block lists them (two writes of one key end differently), and the caller's slice — the block about to be saved and published — is reordered with it", nil)
+	}
+	// the mempool
+	isChanField := func(v ssa.Value) bool {
+		if ld, ok := v.(*ssa.UnOp); ok {
+			if fa, ok := ld.X.(*ssa.FieldAddr); ok {
+				if _, ok := fa.Type().(*types.Pointer).Elem().Underlying().(*types.Chan); ok {
+					return true
+				}
+			}
+		}
+		return false
+	}
+	touch := ""
+	for _, n := range g.Nodes {
+		if !g.Live()[n] || n.Kind != NInstr {
+			continue
+		}
+		switch x := n.In.(type) {
+		case *ssa.UnOp:
+			if x.Op == token.ARROW && isChanField(x.X) {
+				touch = "receive @" + p.InstrPos(n.In)
+			}
+		case *ssa.Send:
+			if isChanField(x.Chan) {
+				touch = "send @" + p.InstrPos(n.In)
+			}
+		case *ssa.Select:
+			for _, st := range x.States {
+				if isChanField(st.Chan) {
+					touch = "select @" + p.InstrPos(n.In)
+				}
+			}
+		case *ssa.Call:
+			if bi, ok := x.Common().Value.(*ssa.Builtin); ok && (bi.Name() == "len" || bi.Name() == "cap") && len(x.Common().Args) == 1 && isChanField(x.Common().Args[0]) {
+				touch = bi.Name() + " @" + p.InstrPos(n.In)
+			}
+		}
+	}
+	if touch == "" {
+		c.OK(rule, "ExecuteTxs ⟂ mempool untouched", fnName(exec), p.Pos(exec.Pos()), "no channel of the executor is read, written or measured while executing", true)
+	} else {
+		c.Bad(rule, "ExecuteTxs ⟂ mempool untouched", fnName(exec), p.Pos(exec.Pos()), "ExecuteTxs uses the executor's queue of injected transactions ("+touch+"): what it does then depends on the mempool, which a proposer has and a full node (or a re-execution) has not — the same block can give different roots", nil)
+	}
+	c.MinInstances(rule, 2)
 }
